@@ -488,4 +488,31 @@ def s_parse_cl(vc):
     vc.ensure("canonical_decimal_accepted", Implies(strict, out.ok))
     if out.ok:
         vc.ensure("value_is_decimal_value", Implies(rfc, out.result == str_to_int(vc, v)))
-        vc.ensure("non_negative", Implies(rfc, out.result >= 0))
+
+
+# RFC 9112 §6.1 / §7: Transfer-Encoding = #transfer-coding, names case-insensitive, OWS around the commas.  mitmproxy only
+# knows eight combinations (stricter than the RFC is fine); spec patterns written from that list:
+def te_spec_pattern(lit, as_str):
+    """case-insensitive pattern of a coding list literal with optional blanks around the commas"""
+    out = ""
+    for c in lit:
+        if c == ",":
+            out += "[ \\t]*,[ \\t]*"
+        elif c.isalpha():
+            out += "[" + c.lower() + c.upper() + "]"
+        else:
+            out += c
+    return out if as_str else out.encode()
+
+
+@scenario("parse_transfer_encoding", functions=[V + "parse_transfer_encoding"], **_regex_opts())
+def s_parse_te(vc):
+    as_str = vc.case("type", ["bytes", "str"]) == "str"
+    v = vc.sym_str("value") if as_str else vc.sym_bytes("value")
+    out = vc.call(V + "parse_transfer_encoding", v)
+    vc.ensure("raises_only_value_error", out.ok or issubclass(out.raised_type(), ValueError))
+    matches = [in_re(vc, v, te_spec_pattern(L, as_str)) for L in TE_LITERALS]
+    vc.ensure("accepted_iff_known_coding_list", Iff(out.ok, Or(*matches)))
+    if out.ok:
+        for L, m in zip(TE_LITERALS, matches):
+            vc.ensure(f"result[{L}]", Iff(out.result == L, m))
